@@ -171,6 +171,9 @@ type C03Case struct {
 	Start int       `json:"start"`
 	Def   RootDesc  `json:"def"`
 	Layer RootDesc  `json:"layer"`
+	// Layer2: a second source stacked above Layer (mode config only): both may
+	// set the same interface-typed field
+	Layer2 *RootDesc `json:"layer2,omitempty"`
 }
 
 // ---- generator ----
@@ -389,6 +392,16 @@ func genC03(t *rapid.T) C03Case {
 	}
 	c.Def = genRoot(t, g, "def", false)
 	c.Layer = genRoot(t, g, "layer", true)
+	if c.Mode == "config" && rapid.Bool().Draw(t, "has_layer2") {
+		l2 := genRoot(t, g, "layer2", true)
+		if rapid.Bool().Draw(t, "same_any") {
+			l2.Any.Kind = c.Layer.Any.Kind // the same payload type in both layers
+			if l2.Any.Kind == "nodemap" {
+				l2.Any.Pool = c.Layer.Any.Pool
+			}
+		}
+		c.Layer2 = &l2
+	}
 	return c
 }
 
@@ -981,15 +994,15 @@ func runC03(c C03Case) vrt.Verdict {
 		// the pointerified layer: located by field name
 		ctx, cancel := context.WithCancel(context.Background())
 		defer cancel()
-		mkLayer := func(t *dials.Type) reflect.Value {
+		mkLayerOf := func(t *dials.Type, ld RootDesc, lay *GRoot) reflect.Value {
 			lv := reflect.New(t.Type()).Elem()
-			if c.Layer.HasAll {
+			if ld.HasAll {
 				lv.FieldByName("All").Set(reflect.ValueOf(lay.All))
 			}
 			if lay.Index != nil {
 				lv.FieldByName("Index").Set(reflect.ValueOf(lay.Index))
 			}
-			if c.Layer.HasPair {
+			if ld.HasPair {
 				p := lay.Pair
 				lv.FieldByName("Pair").Set(reflect.ValueOf(&p))
 			}
@@ -1007,6 +1020,7 @@ func runC03(c C03Case) vrt.Verdict {
 			}
 			return lv
 		}
+		mkLayer := func(t *dials.Type) reflect.Value { return mkLayerOf(t, c.Layer, lay) }
 		want := &GRoot{All: def.All, Index: def.Index, Pair: def.Pair, Count: def.Count, Other: def.Other}
 		if c.Def.SelfRef {
 			want.Self = []*GRoot{want, want} // the defaults point back at themselves; so must the result
@@ -1033,10 +1047,42 @@ func runC03(c C03Case) vrt.Verdict {
 		if lay.Any != nil {
 			want.Any = lay.Any
 		}
+		srcs := []dials.Source{&lazySource{mk: mkLayer}}
+		if c.Layer2 != nil && c.Mode == "config" {
+			// the last source that sets a field wins; an interface value is replaced as a whole
+			lay2 := instantiate(c.Graph).root(*c.Layer2)
+			srcs = append(srcs, &lazySource{mk: func(t *dials.Type) reflect.Value { return mkLayerOf(t, *c.Layer2, lay2) }})
+			if lay2.Count != nil {
+				want.Count = lay2.Count
+			}
+			if lay2.Other != nil {
+				want.Other = lay2.Other
+			}
+			if c.Layer2.HasAll {
+				want.All = lay2.All
+			}
+			if lay2.Index != nil {
+				want.Index = lay2.Index
+			}
+			if c.Layer2.HasPair {
+				want.Pair = lay2.Pair
+			}
+			if lay2.Any != nil {
+				want.Any = lay2.Any
+				if lay.Any != nil {
+					labels = append(labels, "interface-set-by-two-layers")
+					if reflect.TypeOf(lay.Any) == reflect.TypeOf(lay2.Any) {
+						labels = append(labels, "same-payload-type:"+reflect.TypeOf(lay.Any).String())
+					}
+				}
+			}
+			if lay2.T != nil {
+				want.T = lay2.T
+			}
+		}
 		var got *GRoot
 		if c.Mode == "config" {
-			src := &lazySource{mk: mkLayer}
-			d, err := dials.Config(ctx, def, src)
+			d, err := dials.Config(ctx, def, srcs...)
 			if err != nil {
 				return vrt.Violationf("Config failed: %v", err)
 			}
@@ -1089,7 +1135,7 @@ func TestC03Graphs(t *testing.T) {
 	vrt.Check(t, vrt.Prop[C03Case]{
 		ID: "C03", Name: "graphs",
 		Rule: "object graphs of 0..8 nodes over the fixed family GNode/GLeaf/GRoot/TNode (TNode implements encoding.TextUnmarshaler and has exported pointer / map / slice fields, so it can point at itself) with arbitrary edges through struct-field pointers (one of them an exported field tagged dials:\"-\", which stacking skips but the copy must still reproduce), slices, arrays, maps, maps whose values are slices / maps shared with other fields, shared maps / *int, pointers to slices / maps / pointers shared between nodes, back-references to the config root itself, and interface payloads (typed nil map / slice / pointer, *GNode, GNode by value, a struct by value with unexported fields, a time.Time, map[string]*GNode, []*GNode, [1]*GNode, []interface{}, a node's own Attrs map); " +
-			"copied directly by the deep copier (root *GNode or *GRoot), by Config with the graph in defaults and in a source value, and by a watcher re-stack; oracle: terminates, reflect.DeepEqual, and the in->out map of pointer/map references in fields, elements and map values is a function with a fresh range; " +
+			"copied directly by the deep copier (root *GNode or *GRoot), by Config with the graph in defaults and in one or two source values (both may set the same interface-typed field, with payloads of the same or different types), and by a watcher re-stack; oracle: terminates, reflect.DeepEqual, and the in->out map of pointer/map references in fields, elements and map values is a function with a fresh range; " +
 			"non-trivial = the graph has a cycle or a reference with in-degree >= 2; distinct = distinct case JSON",
 		Assumptions: []string{
 			"the reference held directly in an interface value is only required to be deeply equal (the statement does not require its identity to be preserved); references below it are checked again",
